@@ -185,6 +185,12 @@ def close(a, b, tol=1e-9):
     return abs(a - b) <= tol * (1 + abs(b))
 
 
+def at_dist(p, c, r):
+    """|p - c| = r within 1e-9 relative to r (plus the cancellation error of the subtraction)"""
+    d = vnorm(vsub(p, c))
+    return abs(d - r) <= 1e-9 * abs(r) + 8e-16 * (vnorm(p) + vnorm(c))
+
+
 def vsub(a, b):
     return [x - y for x, y in zip(a, b)]
 
@@ -263,6 +269,8 @@ def oracle(case, ob):
     """The property sentence restated on one concrete call. Returns None or (class_key, message)."""
     g, kw = case["gen"], case.get("kw", {})
     if ob.get("exc") is not None:
+        if ob.get("defaults_unchanged") is False:
+            return ("%s/default-mutated" % g, "%s(%s): the (failing) call changed a default parameter value" % (g, short(kw)))
         if not accepted(g, kw):
             # a resolution below the generator's minimum must be refused by its own guard (a plain Exception with its message)
             if ob.get("exc_type") == "Exception" and "Aborting" in ob["exc"]:
@@ -272,6 +280,13 @@ def oracle(case, ob):
         if not admissible(g, kw):
             return None
         return ("%s/exception" % g, "%s(%s) raised %s: %s" % (g, short(kw), ob.get("exc_type"), ob["exc"][:200]))
+    if ob.get("defaults_unchanged") is False:
+        return ("%s/default-mutated" % g, "%s(%s): the call changed the default value of one of its own optional parameters" % (g, short(kw)))
+    if ob.get("args_unchanged") is False:
+        return ("%s/argument-mutated" % g, "%s(%s): the call modified an argument object passed by the caller" % (g, short(kw)))
+    if ob.get("alias_free") not in (None, True):
+        return ("%s/aliases-caller-array" % g, "%s(%s): editing the caller's array after the call changes the returned mesh (%s)"
+                % (g, short(kw), ob.get("alias_free")))
     fr = ob.get("fresh")
     if fr is not None:
         if fr.get("error"):
@@ -412,7 +427,7 @@ def oracle(case, ob):
     if g == "icosahedron":
         c, r = vec_of(kw, "center", [0, 0, 0]), kw.get("radius", 1.0)
         return first(surface_type(), counts(12, 20), lambda: arity(3, "arity"), lambda: shape("sphere"),
-                     lambda: on(lambda i, p: close(vnorm(vsub(p, c)), r), "at distance radius=%s from the centre %s (it is at %.6f)" % (r, c, vnorm(vsub(X[0], c))), "radius"))
+                     lambda: on(lambda i, p: at_dist(p, c, r), "at distance radius=%s from the centre %s (it is at %.6g)" % (r, c, vnorm(vsub(X[0], c))), "radius"))
     if g == "icosphere":
         n = kw.get("n_refine", 3)
         c, r = vec_of(kw, "center", [0, 0, 0]), kw.get("radius", 1.0)
@@ -437,7 +452,7 @@ def oracle(case, ob):
                 return all(close(a, b) for a, b in zip(p, (P1, P2)[i - 2 * N]))
             base = P1 if i < N else P2
             d = vsub(p, base)
-            return abs(vdot(d, ax)) <= 1e-9 * (1 + L) and close(vnorm(d), r)
+            return abs(vdot(d, ax)) <= 1e-9 * (abs(r) + 1e-6 * L) and at_dist(p, base, r)
         return first(surface_type(), counts(2 * N + (2 if caps else 0), 4 * N if caps else 2 * N), lambda: arity(3, "arity"),
                      lambda: shape("sphere" if caps else "annulus"),
                      lambda: on(onc, "at distance radius=%s from the axis in the end plane / the cap centre" % r))
@@ -445,14 +460,14 @@ def oracle(case, ob):
         M_, m_ = kw["major_segments"], kw["minor_segments"]
         R, r = kw.get("major_radius", 1.0), kw.get("minor_radius", 0.3)
         return first(surface_type(), counts(M_ * m_, M_ * m_ * (2 if tri else 1)), lambda: arity(3 if tri else 4), lambda: shape("torus"),
-                     lambda: on(lambda i, p: close((math.hypot(p[0], p[1]) - R) ** 2 + p[2] ** 2, r * r), "on the torus of radii %s, %s" % (R, r)))
+                     lambda: on(lambda i, p: abs((math.hypot(p[0], p[1]) - R) ** 2 + p[2] ** 2 - r * r) <= 1e-9 * R * R, "on the torus of radii %s, %s" % (R, r)))
     if g == "sphere_uv":
         nl, ng = kw["n_lat"], kw["n_long"]
         c, r = vec_of(kw, "center", [0, 0, 0]), kw.get("radius", 1.0)
         return first(surface_type(), counts(nl * ng + 2, None), lambda: shape("sphere", "unused-ring" if not topo(V, F)["all_used"] else "shape"),
-                     lambda: on(lambda i, p: close(vnorm(vsub(p, c)), r), "at distance radius=%s from the centre %s" % (r, c)),
-                     lambda: (None if len({round(p[2], 9) for p in X}) == nl + 2 else
-                              fail("latitudes", "%d distinct latitudes besides the poles, n_lat=%d" % (len({round(p[2], 9) for p in X}) - 2, nl))))
+                     lambda: on(lambda i, p: at_dist(p, c, r), "at distance radius=%s from the centre %s" % (r, c)),
+                     lambda: (None if len({round((p[2] - c[2]) / r, 9) for p in X}) == nl + 2 else
+                              fail("latitudes", "%d distinct latitudes besides the poles, n_lat=%d" % (len({round((p[2] - c[2]) / r, 9) for p in X}) - 2, nl))))
     if g == "ring":
         N, k, op = kw["N"], kw.get("n_cover", 1), kw.get("open", False)
         d = max(min(kw["defect"], 2 * math.pi - 0.01), 0.)
@@ -687,6 +702,7 @@ def gen_cases(rng, tier):
         dim = rng.choice([2, 3])
         add("vector_field", origins={"arr": [[dy(rng) for _ in range(dim)] for _ in range(n)]},
             vectors={"arr": [[dy(rng) for _ in range(dim)] for _ in range(n)]}, length_mult=rng.choice([1.0, 0.5, 2.0]))
+    cs += gen_forms(rng)
     # -- random larger ones
     nbig = 24 if quick else 600
     for _ in range(nbig):
@@ -706,6 +722,115 @@ def gen_cases(rng, tier):
             add(g, N=b, defect=rng.random() * 6, open=rng.random() < .5, n_cover=rng.randint(1, 3))
         else:
             add(g, N=b, defect=rng.random() * 6, n_cover=rng.randint(1, 3))
+    return cs
+
+
+POSITIONAL = {
+    "hexahedron_4pts": ["P1", "P2", "P3", "P4", "colored", "volume"],
+    "torus": ["major_segments", "minor_segments", "major_radius", "minor_radius", "triangulate"],
+    "ring": ["N", "defect", "open", "n_cover"],
+    "flat_ring": ["N", "defect", "n_cover"],
+    "unit_grid": ["nu", "nv", "triangulate", "generate_uvs"],
+    "unit_triangle": ["nu", "nv", "generate_uvs"],
+    "cylinder": ["P1", "P2", "radius", "N", "fill_caps"],
+    "sphere_uv": ["n_lat", "n_long", "center", "radius"],
+    "quad": ["P0", "P1", "P2", "triangulate"],
+    "tetrahedron": ["P1", "P2", "P3", "P4", "volume"],
+    "axis_aligned_cube": ["colored", "triangulate"],
+    "icosahedron": ["center", "radius", "uv"],
+    "chain_of_vertices": ["vertices", "loop"],
+    "vector_field": ["origins", "vectors", "length_mult"],
+}
+
+
+def gen_forms(rng):
+    """Call forms, numeric representations, scales, degenerate geometry: the same generators reached in every way a
+    caller may reach them.  `kw` stays the canonical keyword form (defaults filled in); `form` tells the driver how to call."""
+    cs = []
+    Z0 = V3(0, 0, 0)
+
+    def add(g, form=None, **kw):
+        c = {"gen": g, "kw": kw}
+        if form:
+            c["form"] = form
+        cs.append(c)
+    # -- every optional argument omitted (defaults, incl. the mutable Vec defaults), twice in a row by the driver
+    add("sphere_uv", {"omit": ["center", "radius"]}, n_lat=3, n_long=4, center=Z0, radius=1.0)
+    add("sphere_uv", {"omit": ["center", "radius"]}, n_lat=2, n_long=5, center=Z0, radius=1.0)
+    add("sphere_uv", {"omit": ["n_lat", "n_long", "center", "radius"]}, n_lat=30, n_long=50, center=Z0, radius=1.0)
+    add("icosahedron", {"omit": ["center", "radius", "uv"]}, center=Z0, radius=1.0, uv=False)
+    add("torus", {"omit": ["major_segments", "minor_segments", "major_radius", "minor_radius", "triangulate"]},
+        major_segments=50, minor_segments=30, major_radius=1.0, minor_radius=0.3, triangulate=False)
+    add("cylinder", {"omit": ["radius", "N", "fill_caps"]}, P1=Z0, P2=V3(0, 0, 1), radius=1.0, N=50, fill_caps=True)
+    add("ring", {"omit": ["open", "n_cover"]}, N=5, defect=0.4, open=False, n_cover=1)
+    add("flat_ring", {"omit": ["n_cover"]}, N=5, defect=0.4, n_cover=1)
+    add("unit_grid", {"omit": ["triangulate", "generate_uvs"]}, nu=3, nv=4, triangulate=False, generate_uvs=False)
+    add("unit_triangle", {"omit": ["generate_uvs"]}, nu=3, nv=4, generate_uvs=False)
+    add("quad", {"omit": ["triangulate"]}, P0=rvec(rng), P1=rvec(rng), P2=rvec(rng), triangulate=False)
+    add("tetrahedron", {"omit": ["volume"]}, P1=rvec(rng), P2=rvec(rng), P3=rvec(rng), P4=rvec(rng), volume=False)
+    add("hexahedron", {"omit": ["colored", "triangulate", "volume"]}, **{"P%d" % k: rvec(rng) for k in range(1, 9)},
+        colored=False, triangulate=False, volume=False)
+    add("hexahedron_4pts", {"omit": ["colored", "volume"]}, P1=rvec(rng), P2=rvec(rng), P3=rvec(rng), P4=rvec(rng), colored=False, volume=False)
+    add("axis_aligned_cube", {"omit": ["colored", "triangulate"]}, colored=False, triangulate=False)
+    add("chain_of_vertices", {"omit": ["loop"]}, vertices={"arr": [[dy(rng) for _ in range(3)] for _ in range(4)]}, loop=False)
+    add("vector_field", {"omit": ["length_mult"]}, origins={"arr": [[dy(rng)] * 3 for _ in range(3)]},
+        vectors={"arr": [[dy(rng) for _ in range(3)] for _ in range(3)]}, length_mult=1.0)
+    # -- everything positional
+    for g, kw in (
+        ("hexahedron_4pts", dict(P1=rvec(rng), P2=rvec(rng), P3=rvec(rng), P4=rvec(rng), colored=True, volume=True)),
+        ("hexahedron_4pts", dict(P1=rvec(rng), P2=rvec(rng), P3=rvec(rng), P4=rvec(rng), colored=False, volume=True)),
+        ("hexahedron_4pts", dict(P1=rvec(rng), P2=rvec(rng), P3=rvec(rng), P4=rvec(rng), colored=True, volume=False)),
+        ("torus", dict(major_segments=4, minor_segments=3, major_radius=2.0, minor_radius=0.5, triangulate=True)),
+        ("ring", dict(N=5, defect=0.3, open=True, n_cover=2)),
+        ("flat_ring", dict(N=4, defect=0.5, n_cover=2)),
+        ("unit_grid", dict(nu=3, nv=4, triangulate=True, generate_uvs=True)),
+        ("unit_triangle", dict(nu=3, nv=5, generate_uvs=True)),
+        ("cylinder", dict(P1=Z0, P2=V3(1, 2, 2), radius=0.5, N=5, fill_caps=False)),
+        ("sphere_uv", dict(n_lat=2, n_long=4, center=rvec(rng), radius=2.0)),
+        ("quad", dict(P0=rvec(rng), P1=rvec(rng), P2=rvec(rng), triangulate=True)),
+        ("tetrahedron", dict(P1=rvec(rng), P2=rvec(rng), P3=rvec(rng), P4=rvec(rng), volume=True)),
+        ("axis_aligned_cube", dict(colored=True, triangulate=True)),
+        ("icosahedron", dict(center=rvec(rng), radius=2.0, uv=True)),
+        ("chain_of_vertices", dict(vertices={"arr": [[dy(rng) for _ in range(3)] for _ in range(5)]}, loop=True)),
+        ("vector_field", dict(origins={"arr": [[dy(rng), dy(rng)] for _ in range(3)]}, vectors={"arr": [[dy(rng), dy(rng)] for _ in range(3)]}, length_mult=0.5)),
+    ):
+        add(g, {"positional": POSITIONAL[g]}, **kw)
+    # -- numeric representations of resolutions, switches and radii
+    add("torus", {"np": {"major_segments": "int64", "minor_segments": "int32", "triangulate": "bool_"}},
+        major_segments=3, minor_segments=4, major_radius=1.0, minor_radius=0.25, triangulate=True)
+    add("unit_grid", {"np": {"nu": "int32", "nv": "int64"}}, nu=3, nv=4, triangulate=1, generate_uvs=0)
+    add("unit_triangle", {"np": {"nu": "uint8", "nv": "int16"}}, nu=3, nv=4, generate_uvs=1)
+    add("cylinder", {"np": {"N": "int64", "radius": "float32", "fill_caps": "bool_"}}, P1=Z0, P2=V3(0, 2, 0), radius=0.5, N=4, fill_caps=False)
+    add("sphere_uv", {"np": {"n_lat": "uint8", "n_long": "int32", "radius": "float32"}}, n_lat=2, n_long=3, center=Z0, radius=2.0)
+    add("sphere_uv", None, n_lat=2, n_long=3, center=V3(1, 0, 0), radius=2)      # radius as a Python int
+    add("ring", {"np": {"N": "int32", "n_cover": "int64"}}, N=4, defect=0.3, open=1, n_cover=2)
+    add("flat_ring", {"np": {"N": "int64", "n_cover": "uint8"}}, N=3, defect=0.3, n_cover=2)
+    add("icosahedron", {"np": {"radius": "float32"}}, center=Z0, radius=0.5, uv=False)
+    # -- counts beyond 256 (identity vs equality of small integers)
+    add("ring", None, N=300, defect=1.0, open=False, n_cover=1)
+    add("flat_ring", None, N=260, defect=1.0, n_cover=1)
+    add("cylinder", None, P1=Z0, P2=V3(0, 0, 3), radius=1.0, N=257, fill_caps=True)
+    add("chain_of_vertices", None, vertices={"arr": [[float(i), 0.0, 0.0] for i in range(300)]}, loop=True)
+    # -- the property is scale-free: tiny and huge radii
+    for r in (1e-7, 1e39):
+        add("sphere_uv", None, n_lat=2, n_long=4, center=Z0, radius=r)
+        add("icosahedron", None, center=Z0, radius=r, uv=False)
+        add("cylinder", None, P1=Z0, P2=V3(0, 0, 1), radius=r, N=4, fill_caps=True)
+        add("torus", None, major_segments=3, minor_segments=4, major_radius=r, minor_radius=r / 4, triangulate=False)
+    # -- zero where a truthiness test would go wrong
+    add("vector_field", None, origins={"arr": [[0.0, 0.0, 0.0], [1.0, 0.0, 0.0]]}, vectors={"arr": [[0.0, 1.0, 0.0], [0.0, 0.0, 1.0]]}, length_mult=0.0)
+    add("ring", None, N=4, defect=0.0, open=True, n_cover=1)
+    add("flat_ring", None, N=4, defect=0.0, n_cover=1)
+    add("icosahedron", None, center=Z0, radius=1.0, uv=0)
+    # -- degenerate geometry, valid combinatorics
+    P = rvec(rng)
+    add("triangle", None, P0=P, P1=P, P2=P)
+    add("quad", None, P0=Z0, P1=V3(1, 0, 0), P2=V3(2, 0, 0), triangulate=True)
+    add("tetrahedron", None, P1=P, P2=P, P3=P, P4=P, volume=False)
+    add("hexahedron", None, **{"P%d" % k: P for k in range(1, 9)}, colored=True, triangulate=True, volume=False)
+    add("hexahedron_4pts", None, P1=P, P2=P, P3=P, P4=P, colored=False, volume=False)
+    add("chain_of_vertices", None, vertices={"arr": [[1.0, 1.0, 1.0]] * 4}, loop=True)
+    add("vector_field", {"aslist": ["origins", "vectors"]}, origins={"arr": [[0.0, 0.0, 0.0]] * 3}, vectors={"arr": [[0.0, 0.0, 0.0]] * 3}, length_mult=2.0)
     return cs
 
 
@@ -738,7 +863,28 @@ def gen_duals(rng, tier):
     # bordered inputs (the dual is then only compared with the model, not judged)
     src.append({"gen": "unit_grid", "kw": {"nu": 3, "nv": 3}})
     src.append({"gen": "ring", "kw": {"N": 5, "defect": 0.3}})
-    return [{"gen": "dual_mesh", "kw": {"mesh": {"mesh": s}}, "_src": s} for s in src]
+    out = [{"gen": "dual_mesh", "kw": {"mesh": {"mesh": s}}, "_src": s} for s in src]
+    tris = [src[1], src[2], src[3], src[5]]
+    for s_, mode in zip(tris, ("Barycenter", "CIRCUMCENTER", "circumcenter", "BaryCenter")):
+        out.append({"gen": "dual_mesh", "kw": {"mesh": {"mesh": s_}, "mode": mode}, "_src": s_})
+    # the same closed surfaces with renumbered vertices, rotated corner lists and shuffled faces (oriented consistently)
+    octa = [[0, 4, 1], [0, 1, 2], [0, 2, 3], [0, 3, 4], [1, 4, 5], [1, 5, 2], [2, 5, 3], [3, 5, 4]]
+    Xo = [[0, 0, 1], [1, 0, 0], [0, 1, 0], [-1, 0, 0], [0, -1, 0], [0, 0, -1]]
+    for _ in range(2 if quick else 6):
+        perm = list(range(6))
+        rng.shuffle(perm)
+        F = []
+        for f in octa:
+            k = rng.randrange(3)
+            g_ = f[k:] + f[:k]
+            F.append([perm[v] for v in g_])
+        rng.shuffle(F)
+        Xp = [None] * 6
+        for v in range(6):
+            Xp[perm[v]] = [float(t) for t in Xo[v]]
+        raw = {"gen": "__raw__", "raw": {"V": Xp, "F": F}}
+        out.append({"gen": "dual_mesh", "kw": {"mesh": {"raw": raw["raw"]}}, "_src": raw})
+    return out
 
 
 # ====================================================================== Coq encoders
@@ -1020,7 +1166,8 @@ def replay(ctx, data):
     c = data["call"]
     if c["gen"] == "dual_mesh":
         c = dict(c)
-        c["_src"] = c["kw"]["mesh"]["mesh"]
+        a = c["kw"]["mesh"]
+        c["_src"] = a["mesh"] if "mesh" in a else {"gen": "__raw__", "raw": a["raw"]}
     r, ob = judge(c)
     print("call: %s(%s)" % (c["gen"], short(c["kw"])))
     print("observed:", json.dumps({k: ob.get(k) for k in ("exc", "type", "V", "F", "E", "C")})[:1500])
